@@ -8,6 +8,7 @@ import (
 	"net/http"
 	"sort"
 	"strings"
+	"sync/atomic"
 
 	"github.com/opencontainers/go-digest"
 	ocispec "github.com/opencontainers/image-spec/specs-go/v1"
@@ -154,6 +155,9 @@ type env struct {
 	subjOK  bool // a manifest with a subject was pushed successfully
 	seenLog int
 	chunkedPut bool
+	// fault injection on range requests (Read/Seek scripts)
+	faultArmed atomic.Int32 // 0: none, else the kind of fault the next range request meets
+	faultFired atomic.Int32
 	collision  bool // a pool manifest is byte-identical to a client-maintained referrers index
 }
 
@@ -476,5 +480,49 @@ func (v *env) takeLog() (n int, violations []string) {
 func (v *env) closeIdle() {
 	if c, ok := v.repo.Client.(*http.Client); ok {
 		c.CloseIdleConnections()
+	}
+}
+
+var rangeFaults = []string{"", "503", "500", "dropped-connection", "200-full-body", "416", "404"}
+
+// installRangeFaults makes the model answer one armed range request on a blob
+// with a fault instead of 206.
+func (v *env) installRangeFaults() {
+	v.reg.Before = func(rec *regmodel.Record) *regmodel.Response {
+		if rec.Kind != "blob" || rec.Method != http.MethodGet || rec.Header.Get("Range") == "" {
+			return nil
+		}
+		k := v.faultArmed.Swap(0)
+		if k == 0 {
+			return nil
+		}
+		v.faultFired.Add(1)
+		errResp := func(code int, errCode string) *regmodel.Response {
+			h := http.Header{}
+			h.Set("Content-Type", "application/json")
+			return &regmodel.Response{Status: code, Header: h, Body: []byte(`{"errors":[{"code":"` + errCode + `","message":"injected"}]}`)}
+		}
+		switch rangeFaults[k] {
+		case "503":
+			return errResp(503, "UNAVAILABLE")
+		case "500":
+			return &regmodel.Response{Status: 500, Header: http.Header{}}
+		case "dropped-connection":
+			return &regmodel.Response{Drop: true}
+		case "200-full-body":
+			var data []byte
+			v.reg.WithLock(func() {
+				if r := v.reg.Repos[rec.Repo]; r != nil {
+					data = append([]byte{}, r.Blobs[digest.Digest(rec.Ref)]...)
+				}
+			})
+			h := http.Header{}
+			h.Set("Content-Type", mtOctet)
+			h.Set("Accept-Ranges", "bytes")
+			return &regmodel.Response{Status: 200, Header: h, Body: data}
+		case "416":
+			return errResp(416, "RANGE_INVALID")
+		}
+		return errResp(404, "BLOB_UNKNOWN")
 	}
 }
